@@ -51,6 +51,38 @@ pub assume_specification<T: PartialEq>[ <[T]>::contains ](s: &[T], x: &T) -> (r:
 pub assume_specification[ isize::unsigned_abs ](x: isize) -> (r: usize)
     ensures r as int == (if x >= 0 { x as int } else { -(x as int) });
 
+// ---- ASSUMED text primitives (C13, C16/C17): uninterpreted readings of `str::parse`, `str::starts_with`, and of the
+// splitting of a text into words. Nothing is known about them beyond their being functions of the characters.
+pub uninterp spec fn parse_spec<F>(s: Seq<char>) -> Option<F>;
+
+#[verifier::external_trait_specification]
+pub trait ExFromStr: Sized {
+    type ExternalTraitSpecificationFor: core::str::FromStr;
+    type Err;
+}
+#[verifier::external_type_specification]
+#[verifier::external_body]
+pub struct ExParseIntError(core::num::ParseIntError);
+
+pub assume_specification<F: core::str::FromStr>[ str::parse::<F> ](s: &str) -> (r: core::result::Result<F, <F as core::str::FromStr>::Err>)
+    ensures r.is_ok() == parse_spec::<F>(s@).is_some(), r matches Ok(v) ==> parse_spec::<F>(s@) == Some(v);
+
+#[verifier::external_trait_specification]
+pub trait ExPattern: Sized {
+    type ExternalTraitSpecificationFor: core::str::pattern::Pattern;
+}
+/// (assumed, uninterpreted) whether a string starts with a pattern
+pub uninterp spec fn starts_with_spec<P>(s: Seq<char>, p: P) -> bool;
+pub assume_specification<P: core::str::pattern::Pattern>[ str::starts_with::<P> ](s: &str, p: P) -> (r: bool)
+    ensures r == starts_with_spec::<P>(s@, p);
+
+/// (assumed, uninterpreted) the whitespace-separated words of a text
+pub uninterp spec fn words_spec(s: Seq<char>) -> Seq<Seq<char>>;
+#[verifier::external_body]
+pub fn vx_words<'a>(s: &'a String) -> (r: Vec<&'a str>)
+    ensures r@.len() == words_spec(s@).len(), forall|k: int| 0 <= k < r@.len() ==> (#[trigger] r@[k])@ == words_spec(s@)[k],
+{ unimplemented!() }
+
 /// R3h: verified stand-ins for `slice.iter().any(f)` and `slice.contains(x)` (same evaluation order and short-circuiting as
 /// the std functions; the specification speaks about the closure's own contract)
 pub fn vx_any<T, F: Fn(&T) -> bool>(s: &[T], f: F) -> (r: bool)
